@@ -1108,21 +1108,16 @@ def reconcileOnce (quota : Str → Int × Int) (used : Str → Int) (known : Boo
   let fcs2 ← foldM' updateFlowControlsOne fcs1 ret.items
   pure (fcs2, u')
 
-/-! ## What "the gateway applies the object" and "the limiter server applies the object" mean -/
+/-- any number of reconcile periods -/
+def reconcileLoop (quota : Str → Int × Int) (used : Str → Int) (inst : Str) :
+    Nat → List (Str × FlowControlCache) × Upstream → M (List (Str × FlowControlCache) × Upstream)
+  | 0, st => pure st
+  | n + 1, st => do
+    let st' ← reconcileOnce quota used true inst st.1 st.2
+    reconcileLoop quota used inst n st'
 
-/-- the gateway bootstraps the cluster through its controller, then (remote mode) runs two reconcile periods
-    against a limiter server that has handled the same object -/
-def gatewayApply (env : Env) (quota : Str → Int × Int) (used : Str → Int) (c : Cluster) : M Unit := do
-  -- local mode and remote mode
-  let _ ← syncUpstreamCluster env false [] c
-  let m ← syncUpstreamCluster env true [] c
-  match alGet m (env.lower c.name) with
-  | none => pure ()
-  | some ci => do
-    let u ← upstreamConditionHandler emptyUpstream c
-    let (fcs1, u1) ← reconcileOnce quota used true [1] ci.flowcontrol.flowControls u
-    let _ ← reconcileOnce quota used true [1] fcs1 u1
-    pure ()
+
+/-! ## The limiter server applying an object and answering a first report -/
 
 /-- the limiter server handles the object and answers a gateway instance that reports about it -/
 def limiterApply (quota : Str → Int × Int) (used : Str → Int) (c : Cluster) (fcs : List (Str × FlowControlCache)) : M Upstream := do
